@@ -392,6 +392,10 @@ def main(argv=None):
             continue
         seen.add(key)
         path, reproduced = replay.write_replay(pid, r, ob, cs, REPO)
+        if not reproduced and (ob.get('info') or {}).get('structural'):
+            undecided.append({'obligation': ob['name'], 'case': ob.get('case'), 'replay': path,
+                              'reason': 'strings built differently and the counterexample does not replay on the real code: not decided'})
+            continue
         violations.append((ob, path, reproduced))
     exit_code = 0
     for k, r, ob in known_hits:
